@@ -78,10 +78,14 @@ package execution
 
 // helpers that build fresh maps/slices for the shell template; no effect on existing objects
 //@ func (*Executor).getBinToolPaths(e, target) (m, err)
+//@   trusted
 //@   pure
+//@   ensures [named] m == binToolsFor(e.graph, target) && err == nil
 
 //@ func (*Executor).getDependencyOutputIdentifiers(e, target) (m)
+//@   trusted
 //@   pure
+//@   ensures [named] m == outputIdsFor(e.graph, target)
 
 //@ func getTargetOutputIdentifiers(target) (ids)
 //@   pure
@@ -107,6 +111,7 @@ package execution
 //@        (forall a model.BuildNode, d model.BuildNode :: {edge(e.graph, a, tnode(localDep)), edge(e.graph, d, a)} edge(e.graph, a, tnode(localDep)) && !typeIs(a, "*model.Target") && edge(e.graph, d, a) && typeIs(d, "*model.Target") ==> asPtr(d, "*model.Target").OutputsLoaded)
 //@   modifies heap("H$S$model.Target$OutputsLoaded"), heap("H$S$model.Target$OutputHash"), heap("H$S$model.Target$CacheTime"), heap("H$S$model.Target$ExecutionTime"), heap("H$S$output.handlers.DockerRegistryOutputHandler$dockerClient"), heap("H$S$output.handlers.dockerLayerProgress$lastCurrent"), heap("H$S$proto.gen.Directory$Directories"), heap("H$S$proto.gen.Directory$Files"), heap("H$S$proto.gen.Directory$Symlinks"), heap("M$String$Int$has"), heap("M$String$Int$val"), heap("M$String$Int$len")
 //@   ensures [rerun_outputs_present] err == nil ==> localDep.OutputsLoaded
+//@   before_call executeTarget#1 [reruns_with_the_dependencys_own_tools] binTools == binToolsFor(e.graph, localDep) && outputIdentifiers == outputIdsFor(e.graph, localDep)
 //@   ensures [loaded_monotone] forall x *model.Target :: {x.OutputsLoaded} old(x.OutputsLoaded) ==> x.OutputsLoaded
 
 // The graph representation invariant (edge maps agree with the abstract edge relation) is handed down from Execute to the
@@ -115,6 +120,7 @@ package execution
 //@   requires [graph] graphWF(e.graph) && e.targetHasher.graph == e.graph
 
 //@ func (*Executor).Execute$2(ctx, node) (r, err)
+//@   before_call getTaskFunc#1 [task_gets_the_targets_own_tools] binTools == binToolsFor(e.graph, target) && outputIdentifiers == outputIdsFor(e.graph, target)
 //@   captured_requires [graph] graphWF(e.graph) && e.targetHasher.graph == e.graph
 
 //@ func (*Executor).getTaskFunc(e, ctx, target, binToolPaths, outputIdentifiers) (f)
